@@ -8,8 +8,10 @@ import (
 	"errors"
 	"fmt"
 	"io"
+	"sort"
 	"testing"
 
+	proto "github.com/golang/protobuf/proto"
 	oerrors "github.com/openacid/errors"
 	"github.com/openacid/low/pbcmpl"
 	"pgregory.net/rapid"
@@ -26,11 +28,18 @@ type Case struct {
 	// frame: every cut point, every writer fault point, every reader error point of one valid frame
 	Frame    *pbm.FrameJ `json:"frame,omitempty"`
 	PointKey vk.U64      `json:"point_key,omitempty"` // keyed sample of points for frames longer than allPointsUpTo
+	AllCuts  bool        `json:"all_cuts,omitempty"`  // every cut point (whole reader) although the frame is longer than allPointsUpTo
+	// Thin (frames of 1025..4096 bytes drawn by the generator): all cut points through the whole reader and all failure
+	// points of the plain writer; the 1-byte reader, the standard-library readers, the other writer flavours and the
+	// reader errors at every 4th point (offset by the key), around the header, the end and the multiples of 512
+	Thin bool `json:"thin,omitempty"`
 	// hdr: a 32-byte header built from fields + the bytes that follow it
 	Ver        vk.Hex `json:"ver,omitempty"`
 	HeaderSize vk.U64 `json:"header_size,omitempty"`
 	BodySize   vk.U64 `json:"body_size,omitempty"`
 	Tail       vk.Hex `json:"tail,omitempty"`
+	TailLen    int    `json:"tail_len,omitempty"` // further TailLen bytes expanded from TailKey follow Tail (long streams, compact on disk)
+	TailKey    vk.U64 `json:"tail_key,omitempty"`
 	// bytes: arbitrary input
 	Input  vk.Hex `json:"input,omitempty"`
 	Target string `json:"target,omitempty"` // raw | bytes: the message kind unmarshalled into
@@ -42,9 +51,10 @@ const allPointsUpTo = 4096
 
 var checker = &vk.Checker[Case]{
 	ID: "C07",
-	Rule: "frames from C06's generator (all message kinds, versions, payload lengths): for EVERY cut point 0<=k<L (all k when L<=4096, else {0,1,31,32,33,L-1}, 256 keyed points and every multiple j*2^k (k>=9, j<=8) counted from the frame and from the body start, +-1; the grid holds a 3 MiB frame) x reader {whole, 1-byte, and (frames up to 4096 bytes) bufio.Reader, bytes.Reader, bytes.Buffer, strings.Reader, io.LimitReader, iotest.DataErrReader, iotest.HalfReader}: Unmarshal never succeeds, n == k == bytes handed out, cause io.EOF for k=0, io.ErrUnexpectedEOF otherwise (either for k=32), ReadHeader likewise for k<32; " +
-		"for EVERY writer failure point k<L (a writer that accepts exactly k bytes, then returns a short count with an injected error): Marshal returns (k, that error) and the sink holds exactly the first k bytes; for EVERY reader error point k<=L (sticky non-EOF error delivered with or after the last good byte): n == k and the injected cause when k<L, success at k=L; " +
-		"corrupt headers: header-size field any uint64 != 32 -> ErrInvalidHeaderSize, n == 32, exactly 32 bytes consumed, version reported; body-size field in {fits, remaining+1, 2^31, 2^32, 2^36, 2^40, 2^47, 2^48, 2^62, 2^63, 2^64-1, random} -> returns normally (no panic, no process death: the case is on disk while it runs), 0<=n<=len, n == consumed, success only when a complete frame is present; arbitrary bytes into Unmarshal/ReadHeader likewise. " +
+	Rule: "frames from C06's generator (all message kinds, versions, payload lengths <= 300) and frames whose length has a log-uniform magnitude or is a multiple of a round piece size (512, 1000, 1460, 4096, 10000, 12288 ... 10^6) -+ the header, up to 4096 bytes with all points and up to 128 KiB (2 MiB thorough) with sampled points: for EVERY cut point 0<=k<L (all k when L<=4096, else {0,1,31,32,33,L-1}, 96 keyed points (256 for multi-MiB frames) and every multiple j*q, j<=16 (j<=8 for multi-MiB frames), of every power of two q>=512 and of q=1000,10^4,10^5,10^6, counted from the frame and from the body start, +-1; the grid holds frames of 40 KB, 100 KB, 1 MiB and 3 MiB and one frame of 24 KB (64 KB thorough) with ALL its cut points) x reader {whole, 1-byte (chunked for frames above 16 KiB), and (frames up to 4096 bytes) bufio.Reader, bytes.Reader, bytes.Buffer, strings.Reader, io.LimitReader, iotest.DataErrReader, iotest.HalfReader}: Unmarshal never succeeds, n == k == bytes handed out, cause io.EOF for k=0, io.ErrUnexpectedEOF otherwise (either for k=32), ReadHeader likewise for k<32; " +
+		"for EVERY writer failure point k<L x writer flavour {the call crossing k bytes returns a short count with an injected error | the call ENDING at k bytes returns its full count with the error (also k=L)} x {broken for good | transient: later Writes are accepted and land in the sink}: Marshal returns (k, that error) and the sink holds exactly the first k bytes (nothing handed over after the failure); for EVERY reader error point k<=L (sticky non-EOF error delivered with or after the last good byte, five chunkings): n == k and the injected cause when k<L, success at k=L; " +
+		"generated frames of 1025..4096 bytes in the quick tier: all cuts (whole reader) and all plain writer failures, the secondary readers/writers/reader errors at every 4th point + header, end, multiples of 512. " +
+		"corrupt headers: header-size field any uint64 != 32 -> ErrInvalidHeaderSize, n == 32, exactly 32 bytes consumed, version reported; body-size field in {fits, remaining+1, 2^31, 2^32, 2^36, 2^40, 2^47, 2^48, 2^62, 2^63, 2^64-1, random} over streams of 0..40 bytes and (1 in 8) of log-uniform length up to 128 KiB -> returns normally (no panic, no process death: the case is on disk while it runs), 0<=n<=len, n == consumed, success only when a complete frame is present; arbitrary bytes into Unmarshal/ReadHeader likewise. " +
 		"Non-trivial: a frame with a body (points strictly inside the body exist), a corrupted size field, or arbitrary input >= 32 bytes. Distinct by hash of the case; coverage.fault_points counts the enumerated (frame, point) pairs.",
 	Check:    check,
 	Classify: classify,
@@ -78,30 +88,65 @@ func points(L int, key uint64, inclusiveEnd bool, minK uint) []int {
 	if inclusiveEnd {
 		ps = append(ps, L)
 	}
-	for i := 0; i < 256; i++ {
+	keyed := 256
+	if L <= 2<<20 {
+		keyed = 96 // (those frames also get the dense family below)
+	}
+	for i := 0; i < keyed; i++ {
 		ps = append(ps, int(vk.Mix(key+uint64(i))%uint64(end)))
 	}
-	// positions where an implementation that moves the body in pieces would switch pieces:
-	// multiples of every power of two from 512 up, counted from the start of the frame and from
-	// the start of the body, each with its two neighbours
-	for k := minK; k < 31; k++ {
-		for j := 1; j <= 8; j++ {
+	// positions where an implementation that moves the body in pieces would switch pieces: multiples j*q of
+	// every piece size q that is a power of two from 2^minK up or (frames up to 2 MiB) a power of ten from 1000
+	// up - so also 3*2^k, 5*2^k, 10000, 12288, 48 KiB, 100000, 10^6 ... - counted from the start of the frame
+	// and from the start of the body, each with its two neighbours. j <= 8 for multi-MiB frames, else j <= 16.
+	maxJ := 16
+	if L > 2<<20 {
+		maxJ = 8
+	}
+	add := func(q int) {
+		for j := 1; j <= maxJ; j++ {
 			for _, base := range []int{0, 32} {
 				for d := -1; d <= 1; d++ {
-					if p := base + j<<k + d; p > 0 && p < end {
+					if p := base + j*q + d; p > 0 && p < end {
 						ps = append(ps, p)
 					}
 				}
 			}
 		}
 	}
-	return ps
+	for k := minK; k < 31; k++ {
+		add(1 << k)
+	}
+	if L <= 2<<20 {
+		for q := 1000; q < end; q *= 10 {
+			if q >= 1<<minK {
+				add(q)
+			}
+		}
+	}
+	sort.Ints(ps)
+	out := ps[:0]
+	for i, p := range ps {
+		if i == 0 || p != ps[i-1] {
+			out = append(out, p)
+		}
+	}
+	return out
 }
+
+// writer flavours for the failure points (pbm.FaultWriter)
+var writerFlavours = []struct{ full, once bool }{{false, false}, {false, true}, {true, true}, {true, false}}
+
+// readerChunkings for the injected read errors: picked per (frame, point)
+var readerChunkings = [][]int{{5, 32, 1, 100}, {4096, 1}, {33, 7}, {31, 1, 1}, {1 << 20}, {5, 32, 1, 100}}
 
 func checkFrame(c Case) *vk.Failure {
 	f := c.Frame.PB()
 	F := f.Wire()
 	L := len(F)
+	thinned := func(k int) bool { // a point left out for the secondary reader / writer kinds of a Thin frame
+		return c.Thin && L > 1024 && L <= allPointsUpTo && k > 40 && k < L-3 && (k+int(c.PointKey%4))%4 != 0 && (k+1)%512 > 2 && (k-31)%512 > 2
+	}
 	desc := fmt.Sprintf("frame(%s, %d payload bytes, ver %q, L=%d)", f.Kind, len(f.Payload), f.WantVersion(), L)
 	nPoints := int64(0)
 	bigK := uint(9)
@@ -111,11 +156,21 @@ func checkFrame(c Case) *vk.Failure {
 
 	// (a) every cut point
 	modes := []string{"whole", "one"}
-	if L > 1<<17 {
-		modes = []string{"whole", "sizes"} // 1-byte reads over megabytes only cost time
+	if L > 1<<14 {
+		modes = []string{"whole", "sizes"} // 1-byte reads over many KB / megabytes only cost time
 	}
 	for _, mode := range modes {
-		for _, k := range points(L, uint64(c.PointKey), false, 9) {
+		cuts := points(L, uint64(c.PointKey), false, 9)
+		if c.AllCuts && mode == "whole" {
+			cuts = make([]int, L)
+			for i := range cuts {
+				cuts[i] = i
+			}
+		}
+		for _, k := range cuts {
+			if mode != "whole" && thinned(k) {
+				continue
+			}
 			nPoints++
 			r := pbm.NewChunkReader(F[:k], mode, []int{4096, 7, 65536, 1 << 20})
 			var n int64
@@ -161,6 +216,9 @@ func checkFrame(c Case) *vk.Failure {
 				if L > 600 && k%7 != 0 && k > 40 && k < L-3 {
 					continue // long frames: every 7th point is enough for the 8 reader types
 				}
+				if c.Thin && L > 1024 && k > 40 && k < L-3 && k%28 != 0 {
+					continue
+				}
 				nPoints++
 				r := pbm.WrapReader(kind, F[:k])
 				var n int64
@@ -182,31 +240,63 @@ func checkFrame(c Case) *vk.Failure {
 		}
 	}
 
-	// (b) every writer failure point
-	for _, k := range points(L, uint64(c.PointKey)+7, false, bigK) {
-		nPoints++
-		w := &pbm.LimitWriter{Limit: k}
-		var n int64
-		var err error
-		if fl := vk.TryF(func() string { return fmt.Sprintf("%s writer failing after %d bytes: Marshal", desc, k) }, func() { n, err = pbcmpl.Marshal(w, f.Message()) }); fl != nil {
-			return fl
+	// (b) every writer failure point, for every way a writer may fail after k bytes (pbm.FaultWriter): partial
+	// write or full count together with the error (that one also at k = L), broken for good or transient - in
+	// which case anything Marshal still hands over after the failure lands in the sink
+	var bigMsg proto.Message
+	message := func() proto.Message {
+		if L <= allPointsUpTo {
+			return f.Message() // a new message per call
 		}
-		if err == nil || !isCause(err, pbm.ErrInjected) {
-			return vk.Failf("wfail-error", "%s writer failing after %d bytes: Marshal returned error %v, want the writer's error", desc, k, err)
+		if bigMsg == nil { // long frames: hundreds of copies of megabytes only cost time
+			bigMsg = f.Message()
 		}
-		if n != int64(k) {
-			return vk.Failf("wfail-count", "%s writer failing after %d bytes: Marshal returned n=%d", desc, k, n)
+		return bigMsg
+	}
+	for fi, fl := range writerFlavours {
+		nFl := int64(0)
+		for pi, k := range points(L, uint64(c.PointKey)+7, fl.full, bigK) {
+			if fi > 0 && L > allPointsUpTo && k > 33 && k < L-1 && pi%3 != fi-1 {
+				continue // sampled frames: the other flavours share the points among them
+			}
+			if fi > 0 && L > 1024 && L <= allPointsUpTo && k > 40 && k < L-3 && (k+fi)%4 != 0 && (k+1)%512 > 2 && (k-31)%512 > 2 {
+				continue // longer frames: the other flavours at every 4th point, around the header and the multiples of 512
+			}
+			nPoints++
+			nFl++
+			w := &pbm.FaultWriter{Limit: k, Full: fl.full, Once: fl.once}
+			var n int64
+			var err error
+			if fl := vk.TryF(func() string {
+				return fmt.Sprintf("%s writer (%s) failing after %d bytes: Marshal", desc, w.Flavour(), k)
+			}, func() { n, err = pbcmpl.Marshal(w, message()) }); fl != nil {
+				return fl
+			}
+			if err == nil || !isCause(err, pbm.ErrInjected) {
+				return vk.Failf("wfail-error", "%s writer (%s) failing after %d bytes: Marshal returned error %v, want the writer's error", desc, w.Flavour(), k, err)
+			}
+			if n != int64(k) {
+				return vk.Failf("wfail-count", "%s writer (%s) failing after %d bytes: Marshal returned n=%d", desc, w.Flavour(), k, n)
+			}
+			if !bytes.Equal(w.Buf, F[:k]) {
+				return vk.Failf("wfail-bytes", "%s writer (%s) failing after %d bytes: sink holds %d bytes that are not the first %d bytes of the frame (%d Write calls with %d bytes followed the failing one)", desc, w.Flavour(), k, len(w.Buf), k, w.CallsAfter, w.BytesAfter)
+			}
 		}
-		if !bytes.Equal(w.Buf, F[:k]) {
-			return vk.Failf("wfail-bytes", "%s writer failing after %d bytes: sink holds %d bytes that are not the first %d bytes of the frame", desc, k, len(w.Buf), k)
-		}
+		vk.Label("writer:"+(&pbm.FaultWriter{Full: fl.full, Once: fl.once}).Flavour(), nFl)
 	}
 
 	// (c) every reader error point
 	for _, with := range []bool{true, false} {
 		for _, k := range points(L, uint64(c.PointKey)+13, true, bigK) {
+			if thinned(k) {
+				continue
+			}
 			nPoints++
-			r := pbm.NewChunkReader(F, "sizes", []int{5, 32, 1, 100})
+			chunks := readerChunkings[0]
+			if L <= 1<<17 {
+				chunks = readerChunkings[(uint64(c.PointKey)+uint64(k))%uint64(len(readerChunkings))]
+			}
+			r := pbm.NewChunkReader(F, "sizes", chunks)
 			r.ErrAt, r.ErrWith, r.Err = k, with, pbm.ErrInjected
 			msg := f.Fresh()
 			var n int64
@@ -359,7 +449,11 @@ func checkBytes(input []byte, target, mode string) *vk.Failure {
 
 func (c Case) input() []byte {
 	if c.Op == "hdr" {
-		return append(pbm.Header(string(c.Ver), uint64(c.HeaderSize), uint64(c.BodySize)), c.Tail...)
+		in := append(pbm.Header(string(c.Ver), uint64(c.HeaderSize), uint64(c.BodySize)), c.Tail...)
+		if c.TailLen > 0 {
+			in = append(in, pbm.Fill("raw", c.TailLen, uint64(c.TailKey))...)
+		}
+		return in
 	}
 	return c.Input
 }
@@ -384,16 +478,38 @@ func classify(c Case) (bool, []string) {
 		bl := len(f.Body())
 		if bl+32 > allPointsUpTo {
 			labels = append(labels, "points:sampled")
+			if c.AllCuts {
+				labels = append(labels, "points:all-cuts(whole reader)")
+			}
+			switch {
+			case bl+32 <= 1<<14:
+				labels = append(labels, "frame:4KiB-16KiB")
+			case bl+32 <= 1<<17:
+				labels = append(labels, "frame:16KiB-128KiB")
+			case bl+32 <= 1<<20:
+				labels = append(labels, "frame:128KiB-1MiB")
+			default:
+				labels = append(labels, "frame:>1MiB")
+			}
 		} else {
 			labels = append(labels, "points:all")
+			if c.Thin && bl+32 > 1024 {
+				labels = append(labels, "points:all(secondary readers/writers thinned)")
+			}
+			if bl+32 > 512 {
+				labels = append(labels, "frame:512-4096")
+			}
 		}
 		return bl >= 2, labels
 	case "hdr":
 		if c.HeaderSize != 32 {
 			labels = append(labels, "header-size!=32")
 		}
+		if c.TailLen > 0 {
+			labels = append(labels, "tail:long")
+		}
 		switch {
-		case uint64(c.BodySize) <= uint64(len(c.Tail)):
+		case uint64(c.BodySize) <= uint64(len(c.Tail)+c.TailLen):
 			labels = append(labels, "body-size:fits")
 		case uint64(c.BodySize) >= 1<<63:
 			labels = append(labels, "body-size:>=2^63")
@@ -402,7 +518,7 @@ func classify(c Case) (bool, []string) {
 		default:
 			labels = append(labels, "body-size:beyond-stream")
 		}
-		return c.HeaderSize != 32 || uint64(c.BodySize) > uint64(len(c.Tail)), labels
+		return c.HeaderSize != 32 || uint64(c.BodySize) > uint64(len(c.Tail)+c.TailLen), labels
 	}
 	return len(c.Input) >= 32, labels
 }
@@ -422,19 +538,29 @@ func genHdr(t *rapid.T) Case {
 	c := Case{Op: "hdr", Target: []string{"raw", "bytes"}[gen.Uniform(t, 2, "target")], Mode: []string{"whole", "one"}[gen.Uniform(t, 2, "mode")]}
 	c.Ver = gen.Bytes(t, 0, 16, "ver")
 	c.Tail = gen.Bytes(t, 0, 40, "tail")
+	if gen.Chance(t, 1, 8, "longtail") { // streams of every magnitude up to 128 KiB behind the header (1 MiB thorough)
+		c.TailLen, c.TailKey = pbm.GenLogLen(t, vk.Pick(1<<17, 1<<20), "taillen"), vk.U64(gen.U64(t, "tailkey"))
+		if gen.Chance(t, 1, 3, "roundtail") {
+			c.TailLen = max(pbm.GenRoundLen(t, vk.Pick(1<<17, 1<<20), "taillen.r")-len(c.Tail), 0)
+		}
+	}
+	tl := len(c.Tail) + c.TailLen
 	c.HeaderSize = 32
 	switch gen.Uniform(t, 4, "which") {
 	case 0: // corrupt header size only
 		c.Class = "header-size"
 		c.HeaderSize = vk.U64(genSize(t, "hs"))
-		c.BodySize = vk.U64(len(c.Tail))
+		c.BodySize = vk.U64(tl)
 	case 1, 2: // corrupt body size
 		c.Class = "body-size"
 		switch gen.Uniform(t, 4, "bclass") {
 		case 0:
-			c.BodySize = vk.U64(gen.Uniform(t, len(c.Tail)+1, "fits"))
+			c.BodySize = vk.U64(gen.Uniform(t, tl+1, "fits"))
+			if gen.Chance(t, 1, 2, "fits.near") {
+				c.BodySize = vk.U64(max(tl-gen.Uniform(t, 3, "fits.d"), 0)) // the whole stream or a byte or two less
+			}
 		case 1:
-			c.BodySize = vk.U64(len(c.Tail) + 1)
+			c.BodySize = vk.U64(tl + 1)
 		default:
 			c.BodySize = vk.U64(genSize(t, "bs"))
 		}
@@ -455,13 +581,22 @@ func genBytes(t *rapid.T) Case {
 	case 1: // a valid frame with one byte damaged
 		c.Class = "damaged-frame"
 		f := pbm.GenFrame(t, 200).PB()
+		if gen.Chance(t, 1, 8, "long") {
+			f = pbm.GenLongFrame(t, vk.Pick(20000, 1<<18)).PB()
+		}
 		w := f.Wire()
 		k := gen.Uniform(t, len(w), "pos")
+		if len(w) > 300 && gen.Chance(t, 1, 2, "inheader") {
+			k = gen.Uniform(t, 32, "hpos")
+		}
 		w[k] ^= byte(1 << uint(gen.Uniform(t, 8, "bit")))
 		c.Input = w
 	case 2: // a valid frame plus trailing bytes
 		c.Class = "frame+trailer"
 		f := pbm.GenFrame(t, 200).PB()
+		if gen.Chance(t, 1, 8, "long") {
+			f = pbm.GenLongFrame(t, vk.Pick(20000, 1<<18)).PB()
+		}
 		c.Input = append(f.Wire(), gen.Bytes(t, 0, 10, "trailer")...)
 	default:
 		c.Class = "random"
@@ -474,7 +609,17 @@ func genCase(t *rapid.T) Case {
 	switch gen.Uniform(t, 20, "op") {
 	case 0: // a frame with all its fault points is ~1000x the work of the others
 		f := pbm.GenFrame(t, vk.Pick(300, 65536))
-		return Case{Op: "frame", Frame: &f, PointKey: vk.U64(gen.U64(t, "pointkey"))}
+		switch gen.Uniform(t, 8, "flen") {
+		case 0, 1: // every magnitude up to the longest frame that gets all its points
+			f = pbm.GenLongFrame(t, allPointsUpTo-32)
+		case 2: // every magnitude beyond (sampled points: keyed ones and the multiples of round piece sizes)
+			f = pbm.GenLongFrame(t, vk.Pick(1<<17, 1<<21))
+		}
+		c := Case{Op: "frame", Frame: &f, PointKey: vk.U64(gen.U64(t, "pointkey"))}
+		if n := max(len(f.Payload), f.FillLen); n+32 > 1024 && n+32+8 <= allPointsUpTo {
+			c.Thin = !vk.Thorough()
+		}
+		return c
 	case 1, 2, 3, 4, 5, 6, 7, 8, 9, 10, 11:
 		return genHdr(t)
 	}
@@ -563,6 +708,17 @@ func TestGrid(t *testing.T) {
 			f := pbm.FrameJ{Kind: "raw", Payload: b}
 			checker.Run(t, Case{Op: "frame", Frame: &f, PointKey: vk.U64(n), Class: "grid-pow2-body"})
 		}
+	}
+	// EVERY cut point (whole reader) of one frame of 24 KB (64 KB thorough): a body moved in pieces of any size up
+	// to that length has a cut on a piece boundary; and frames of 40 KB .. 1 MiB with the dense family of sampled
+	// points (multiples j <= 16 of every power of two and of 1000, 10^4, 10^5, 10^6)
+	{
+		f := pbm.FrameJ{Kind: "raw", FillLen: vk.Pick(24576+64, 65536+64), FillKey: 24}
+		checker.Run(t, Case{Op: "frame", Frame: &f, PointKey: 24, AllCuts: true, Class: "grid-all-cuts"})
+	}
+	for i, n := range []int{40000 + 17, 100000 + 32 + 5, 1<<20 + 4096 + 17} {
+		f := pbm.FrameJ{Kind: []string{"raw", "bytes"}[i%2], FillLen: n, FillKey: vk.U64(n)}
+		checker.Run(t, Case{Op: "frame", Frame: &f, PointKey: vk.U64(n), Class: "grid-long"})
 	}
 	// one frame of several MiB: its fault points include every power-of-two multiple (piece boundaries)
 	big := make([]byte, 3<<20+4096+17)
